@@ -70,6 +70,9 @@ type Event struct {
 	Acc      string    `json:"acc"`
 	Amount   int64     `json:"amount"`
 	Faults   []FaultEv `json:"faults"`
+	// Also: further messages packed into the SAME transaction after this one (replica scripts only): a transaction whose
+	// first message succeeds and whose last one fails is rolled back as a whole
+	Also []Event `json:"also,omitempty"`
 }
 
 func (e *Event) Normalize() {
